@@ -27,6 +27,7 @@ THEOREMS = [
     "C07_composite_cache_forgotten",
     "C07_foreign_connection_dropped",
     "C07_loaded_macro_not_resavable",
+    "C07_cached_io_view_drops_link",
 ]
 RULE = (
     "seeded random graphs built from REAL objects (term function nodes, transformers, for-loops, nested macros "
@@ -119,8 +120,14 @@ def snap(node):
         "own_conns": sum(len(c.connections) for p in (node.inputs, node.outputs, node.signals.input,
                                                       node.signals.output) for c in p) if kind != "w" else 0,
         "start": [], "prov": [], "ilinks": [], "olinks": [], "children": [],
-        "di": [], "do": [], "si": [], "so": [],
+        "di": [], "do": [], "si": [], "so": [], "ioview": [],
     }
+    if kind == "w" and node.__dict__.get("_inputs") is not None:
+        # what `_rebuild_data_io` left behind: a view of the exposed child inputs, pickled before the children
+        for ch in node.__dict__["_inputs"]:
+            own = ch.owner
+            cur = own.parent is node and node.children.get(own.label) is own
+            d["ioview"].append([own.label, ch.label, bool(cur)])
     if isinstance(node, Composite):
         d["start"] = [n.label for n in node.starting_nodes]
         d["prov"] = list(node.provenance_by_execution)
@@ -234,6 +241,11 @@ def model_rows(I, s, rows, parent=None):
     return nid
 
 
+def view_row(I, s):
+    ents = [(I("node", a), I("din", b)) for a, b, cur in s.get("ioview", []) if cur]
+    return "view " + " ".join(f"{a} {b}" for a, b in ents) if ents else None
+
+
 def render(I, s, path=()):
     """the observation lines of a snapshot, character for character what the Lean driver prints"""
     q = list(path) + [I("node", s["label"])]
@@ -273,8 +285,8 @@ _VARIANT = None
 
 
 def variant():
-    """(revIter, firing, pushLinks, keepCache, skipForeign, rebindOwners) of the library under test, probed on tiny
-    real graphs"""
+    """(revIter, firing, pushIn, pushOut, pushFor, keepCache, skipForeign, rebindOwners, noView) of the library under
+    test, probed on tiny real graphs"""
     global _VARIANT
     if _VARIANT is not None:
         return _VARIANT
@@ -306,8 +318,14 @@ def variant():
         N.CUR.pop()
     m.inputs.x.value = 1
     m.k.inputs.a._value = 2  # out of step on purpose
+    m.outputs.out._value = "stale"
     m2 = pickle.loads(pickle.dumps(m))
     push = m2.k.inputs.a.value == 1
+    push_out = m2.outputs.out.value != "stale"
+    fl = N.ForF1(label="pf", a=[1], b=5)
+    fl.run()
+    fl.body_0.inputs.b._value = "stale"
+    push_for = pickle.loads(pickle.dumps(fl)).body_0.inputs.b.value == 5
     wf.run()
     keep = pickle.loads(pickle.dumps(wf))._cached_inputs is not None
     ext = nodes.F4(label="stranger")
@@ -327,7 +345,19 @@ def variant():
         N.CUR.pop()
     m3.load(backend="pickle", filename=fn)
     rebind = m3.inputs.x.owner is m3
-    _VARIANT = (int(rev), int(fir), int(push), int(keep), int(skip), int(rebind))
+    m.outputs.out._value = m.k.outputs.o.value
+    wv = Workflow("pvv", autoload=None)
+    N.CUR.append({"children": [{"label": "k", "kind": "F", "i": 1}], "data": [["k", "a", ["arg", "x"]]],
+                  "returns": [["k", "o"]]})
+    try:
+        wv.mm = N.M1(label="mm")
+    finally:
+        N.CUR.pop()
+    wv.pl = nodes.F2()
+    wv.replace_child(wv.pl, nodes.F3(label="repl"))
+    noview = pickle.loads(pickle.dumps(wv)).mm.inputs.x.value_receiver is not None
+    _VARIANT = (int(rev), int(fir), int(push), int(push_out), int(push_for), int(keep), int(skip), int(rebind),
+                int(noview))
     return _VARIANT
 
 
@@ -399,6 +429,26 @@ def _roundtrip(obj, backend, case, path):
     fresh = _fresh_like(case, path)
     fresh.load(backend="pickle", filename=fn)
     return fresh
+
+
+def _edit(root, e):
+    """an edit of the graph between building it and saving it; returns what happened"""
+    from . import nodes
+
+    try:
+        comp = _descend(root, e[1])
+        if e[0] == "replace":
+            comp.replace_child(comp.children[e[2]], nodes.term_node(e[3], label="repl"))
+        elif e[0] == "readd":
+            n = comp.remove_child(e[2])
+            comp.add_child(n)
+        elif e[0] == "relabel":
+            comp.add_child(comp.children[e[2]], label=e[3])  # re-labelling through the parent
+        elif e[0] == "remove":
+            comp.remove_child(e[2])
+        return "ok"
+    except BaseException as ex:  # noqa: BLE001
+        return type(ex).__name__
 
 
 def _all_nodes(n):
@@ -494,6 +544,7 @@ def run_impl(case):
         except BaseException as e:  # noqa: BLE001
             return {"before": before, "dump_error": type(e).__name__}
 
+    res["edits"] = [_edit(root, e) for e in case.get("edits", [])]
     state = case["state"]
     for i in case.get("fail", []):
         nodes.FAIL[i] = {0}
@@ -561,11 +612,13 @@ def run_impl(case):
         stats["rerun"] = 1
 
     # the two renderings (one interner per case)
-    I = Intern(foreign_by_identity=bool(res["variant"][4]))
+    I = Intern(foreign_by_identity=bool(res["variant"][6]))
     rows = []
     rid = model_rows(I, before, rows)
     rows.append(f"build {rid}")
-    v = "%d %d %d %d %d %d" % res["variant"]
+    if view_row(I, before):
+        rows.append(view_row(I, before))
+    v = "%d%d%d%d%d%d %d %d %d" % res["variant"]
     obs = ["built"]
     if before["has_parent"]:
         # the driver starts from the parent's path: describe the child as a root whose detached path is the parent's
@@ -714,7 +767,13 @@ def _compare(before, after, child_alone):
     for p in B:
         b, a = B[p], A[p]
         if [l[:3] for l in b["ilinks"]] != [l[:3] for l in a["ilinks"]] or b["olinks"] != a["olinks"]:
-            return _fail("value-links", f"{p}: {b['ilinks']},{b['olinks']} -> {a['ilinks']},{a['olinks']}")
+            # is the missing link the one of the first input of this node that its workflow's IO view lists?
+            lost = [l[0] for l in b["ilinks"] if l[:3] not in [x[:3] for x in a["ilinks"]]]
+            first = next((x[1] for x in before.get("ioview", []) if x[2] and "/" + before["label"] + "/" + x[0] == p),
+                         None)
+            cause = "cached-io-view" if (lost and lost == [first] and b["olinks"] == a["olinks"]) else "other"
+            return _fail("value-links", f"{p}: {b['ilinks']},{b['olinks']} -> {a['ilinks']},{a['olinks']}",
+                         cause=cause)
         if b["start"] != a["start"]:
             return _fail("starting-nodes", f"{p}: {b['start']} -> {a['start']}")
         be = "-" if b["exec"] == "live" else b["exec"]
@@ -739,12 +798,7 @@ def oracle(case, impl):
     if before is None:
         return []
     child_alone = bool(before["has_parent"])
-    if impl.get("error"):
-        e = impl["error"]
-        if e["cls"].startswith("dump:") or e["msg"].startswith("dump:"):
-            return [_fail("dump-error", f"the graph could not be pickled: {e}")]
-        return [_fail("load-error", f"round {e['round']}: {e['cls']}: {e['msg']}", error=e["cls"],
-                      cause=_cause(before, e["round"], case["backend"]))]
+    # the rounds that did come back first (a later failure to load may only be their consequence)
     for r, after in enumerate(impl["rounds"]):
         f = _compare(before, after, child_alone)
         if f is not None:
@@ -752,6 +806,12 @@ def oracle(case, impl):
             if f["clause"] in ("data-connections", "signal-connections") and _cause(before) == "foreign-connection":
                 f["signature"]["cause"] = "foreign-connection"
             return [f]
+    if impl.get("error"):
+        e = impl["error"]
+        if e["cls"].startswith("dump:") or e["msg"].startswith("dump:"):
+            return [_fail("dump-error", f"the graph could not be pickled: {e}")]
+        return [_fail("load-error", f"round {e['round']}: {e['cls']}: {e['msg']}", error=e["cls"],
+                      cause=_cause(before, e["round"], case["backend"]))]
     rr = impl.get("rerun")
     if rr:
         # did a composite that remembered its last run come back without that memory?
@@ -807,7 +867,7 @@ def _gen_graph(rng, depth, opts, in_macro_args=None):
             k = "F"
         kinds.append(k)
     if opts.get("snap") == depth:
-        kinds[rng.randrange(len(kinds))] = "snap"
+        kinds[rng.randrange(len(kinds))] = rng.choice(["snap", "snap", "forsnap"])
         opts["snap"] = None
     children, data = [], []
     used_args = set()
@@ -830,7 +890,7 @@ def _gen_graph(rng, depth, opts, in_macro_args=None):
         if in_macro_args:
             sources += [["arg", a] for a in in_macro_args]
         for x in ins:
-            need_list = (k == "for" and x == "a") or (k == "l2o" and x == "list")
+            need_list = (k in ("for", "forsnap") and x == "a") or (k == "l2o" and x == "list")
             r = rng.random()
             if need_list:
                 ls = [s for s in list_outs]
@@ -839,7 +899,7 @@ def _gen_graph(rng, depth, opts, in_macro_args=None):
                 else:
                     cs["const"][x] = [rng.choice([1, 2, 3]) for _ in range(rng.randint(1, 2))]
                 continue
-            required = k in MACRO_ARGS and x == "x" or k in ("ui", "i2l", "snap")
+            required = k in MACRO_ARGS and x == "x" or k in ("ui", "i2l", "snap", "forsnap")
             if sources and r < (0.75 if required else 0.45):
                 nconn = 1
                 if opts["multi"] and rng.random() < 0.45:
@@ -859,7 +919,7 @@ def _gen_graph(rng, depth, opts, in_macro_args=None):
             elif required or r < 0.75:
                 cs["const"][x] = rng.choice(CONSTS) if not (k == "F" and rng.random() < 0.1) else "__ND__"
         children.append(cs)
-        if k == "for":
+        if k in ("for", "forsnap"):
             list_outs += [["child", lab, "o"], ["child", lab, "a"]]
         if k == "i2l":
             list_outs.append(["child", lab, "list"])
@@ -972,16 +1032,19 @@ def _mk_case(rng, tier, mode):
         spec = _gen_graph(rng, depth - 1, opts, MACRO_ARGS[k])
         root = {"kind": k, "label": "m", "spec": spec, "const": {"x": rng.choice(CONSTS)}}
     elif r < 0.30:
-        k = rng.choice(["F", "for", "i2l"])
+        k = rng.choice(["F", "for", "i2l"] + (["forsnap"] * 3 if state == "midrun" else []))
         root = {"kind": k, "label": "leaf", "const": {}}
         if k == "F":
             root["i"] = rng.randrange(28)
             root["const"] = {"a": rng.choice(CONSTS)}
         elif k == "for":
             root["const"] = {"a": [1, 2], "b": 5}
+        elif k == "forsnap":
+            root["const"] = {"a": [rng.choice([1, 2])] * rng.randint(1, 2), "b": 5}
+            opts["snap"] = None
         else:
             root["const"] = {"item_0": 1, "item_1": 2}
-        if state in ("partial", "midrun"):
+        if state == "partial" or (state == "midrun" and k != "forsnap"):
             state = "run"
     else:
         root = {"kind": "wf", "label": "w", "spec": _gen_graph(rng, depth, opts)}
@@ -999,7 +1062,7 @@ def _mk_case(rng, tier, mode):
     paths = list(_paths(root["spec"])) if "spec" in root else []
     if paths and rng.random() < 0.2:
         p, c = rng.choice(paths)
-        if c["kind"] != "snap":
+        if c["kind"] not in ("snap", "forsnap"):
             case["target"] = p
     if state == "fail":
         fs = sorted(set(_f_indices(root["spec"]))) if "spec" in root else ([root["i"]] if root["kind"] == "F" else [])
@@ -1027,6 +1090,32 @@ def _mk_case(rng, tier, mode):
                 case["rerun"] = [["set", [tgt["label"]], "b", "new"], "run"]
             else:
                 case["rerun"] = ["run"]
+    # edits between building and saving (top level of a workflow, sometimes inside its first macro child)
+    if root["kind"] == "wf" and rng.random() < 0.3 and not case["target"] and mode != "foreign":
+        edits = []
+        for _ in range(rng.randint(1, 2)):
+            comp_path, sp = [], root["spec"]
+            inner = [c for c in sp["children"] if c["kind"] in ("M1", "M2", "M3")]
+            if inner and rng.random() < 0.25:
+                comp_path, sp = [inner[0]["label"]], inner[0]["spec"]
+            fs = [c for c in sp["children"] if c["kind"] == "F" and c["label"] not in [e[2] for e in edits]]
+            if not fs:
+                continue
+            tgt = rng.choice(fs)["label"]
+            kind = rng.choice(["replace", "replace", "replace", "readd", "relabel"])
+            if kind == "replace":
+                edits.append(["replace", comp_path, tgt, rng.randrange(28)])
+            elif kind == "readd":
+                edits.append(["readd", comp_path, tgt])
+            else:
+                edits.append(["relabel", comp_path, tgt, tgt + "x"])
+        if edits:
+            case["edits"] = edits
+            if case.get("rerun") and any(isinstance(st, list) for st in case["rerun"]):
+                case["rerun"] = ["run"]
+            if case.get("pull") and case["pull"][0] in [e[2] for e in edits]:
+                case["state"] = "run"
+                case.pop("pull")
     if case.get("rerun") and rng.random() < 0.5:
         case["rerun_eq_cache"] = True
     if mode == "foreign" and root["kind"] == "wf":
@@ -1135,11 +1224,14 @@ def corpus():
     m3 = {"kind": "M2", "label": "m", "const": {"x": 1}, "spec": {
         "children": [_leafF("a", 1)], "data": [["a", "a", ["arg", "x"]]], "returns": [["a", "o"]]}}
     yield {"root": m3, "state": "fresh", "backend": "pickle", "rounds": 1, "target": [], "fail": [], "mode": "corpus"}
-    # KF-C07-4 witness: pickled from inside the run of a macro whose running child has a linked input
+    # pickled from inside the run of a macro whose running child has a linked input (loads since 60885c9)
     m4 = {"kind": "M1", "label": "m", "const": {"x": 1}, "spec": {
         "children": [{"label": "s", "kind": "snap", "const": {}}, _leafF("b", 2)],
         "data": [["s", "a", ["arg", "x"]], ["b", "a", ["child", "s", "o"]]], "returns": [["b", "o"]]}}
     yield {"root": m4, "state": "midrun", "backend": "pickle", "rounds": 1, "target": [], "fail": [], "mode": "corpus"}
+    # KF-C07-4 witness: the same in a for-node: the running body node's broadcast input is value-linked
+    yield {"root": {"kind": "forsnap", "label": "leaf", "const": {"a": [1], "b": 5}}, "state": "midrun",
+           "backend": "pickle", "rounds": 1, "target": [], "fail": [], "mode": "corpus"}
     # KF-C07-6 witness: a parentless node feeds a workflow child
     yield {"root": {"kind": "wf", "label": "w", "spec": {"children": [_leafF("n0", 6)], "data": []}},
            "state": "fresh", "mode": "foreign", "backend": "pickle", "rounds": 1, "target": [], "fail": [],
@@ -1148,6 +1240,15 @@ def corpus():
     yield {"root": {"kind": "M1", "label": "m", "const": {"x": 1}, "spec": {
         "children": [_leafF("a", 1)], "data": [["a", "a", ["arg", "x"]]], "returns": [["a", "o"]]}},
         "state": "fresh", "mode": "corpus", "backend": "file", "rounds": 2, "target": [], "fail": []}
+    # KF-C07-8 witness: replace_child leaves the workflow a view of its IO; the sibling macro loses a value link
+    w8 = {"kind": "wf", "label": "w", "spec": {"children": [
+        {"label": "m0", "kind": "M1", "const": {"x": "a1"}, "spec": {
+            "children": [_leafF("inner", 3)], "data": [["inner", "a", ["arg", "x"]]], "returns": [["inner", "o"]]}},
+        _leafF("n1", 8)], "data": [["n1", "a", ["child", "m0", "out"]]]}}
+    yield {"root": w8, "state": "fresh", "backend": "pickle", "rounds": 1, "target": [], "fail": [],
+           "edits": [["replace", [], "n1", 15]], "mode": "corpus"}
+    yield {"root": w8, "state": "run", "backend": "file", "rounds": 2, "target": [], "fail": [],
+           "edits": [["replace", [], "n1", 15], ["relabel", [], "n1", "n1x"]], "rerun": ["run"], "mode": "corpus"}
     # a child on its own, nested, all three back ends
     for be in ("pickle", "cloudpickle", "file"):
         yield {"root": m1, "state": "run", "backend": be, "rounds": 2, "target": ["m", "c"], "fail": [], "mode": "corpus"}
